@@ -29,6 +29,16 @@ class FluxContract:
         nm = "Phi_%s_%s_%d" % (self.kind, name or "default", k)
         return z3.Function(nm, *([z3.RealSort()] * (nargs + 1)))
 
+    def model_params(self, model):
+        """the physical parameters of the model object the flux is called on (arguments of Phi)"""
+        if self.kind == "convection":
+            return [T.treal(model.attrs["convcoef"])]
+        if self.kind == "shallowwater":
+            return [T.treal(model.attrs["g"])]
+        if self.kind == "burgers":
+            return []
+        return [T.treal(model.attrs["gamma"])]
+
     def apply(self, interp, f, bound):
         kind = self.kind
         name = bound.get("name")
@@ -76,12 +86,29 @@ class FluxContract:
                 a += _flat([snapD], fidx)
             return a
 
+        mp = self.model_params(bound["self"])
+        mirror_now = getattr(self, "mirror_now", False)
+        par = C.parity(kind)
+
         def comp(k):
             def fn(fidx):
                 a = args_at(fidx)
-                Phi = self.phi(name, k, len(a))
-                val = Phi(*a)
+                Phi = self.phi(name, k, len(a) + len(mp))
+                val = Phi(*(mp + a))
                 m = len(a) // 2 if snapD is None else (len(a) - 2) // 2
+                if "mirror" in clauses and mirror_now and snapD is None:
+                    # instance of the mirror clause (C02): Phi_k(M W_R, M W_L; a -> -a) = sigma_k Phi_k(W_L, W_R)
+                    def Mst(W):
+                        W = list(W)
+                        if kind == "burgers":
+                            return [-W[0]]
+                        if kind == "convection":
+                            return W
+                        W[1] = -W[1]
+                        return W
+                    mpm = [-mp[0]] if kind == "convection" else mp
+                    valm = Phi(*(mpm + Mst(a[m:2 * m]) + Mst(a[:m])))
+                    cur().add_fact(val == par[k] * valm, trigger=val)
                 WL, WR = a[:m], a[m:2 * m]
                 nrm = tuple(a[2 * m:]) if snapD is not None else None
                 ses = cur()
@@ -102,7 +129,8 @@ class FluxContract:
             return A.SymArray(n, fn, name="F%d" % k)
         if self.opaque:
             G = [A.input_array("G%d" % k, n) for k in range(ncomp)]
-            self.last = {"G": G, "args_at": args_at, "m": None, "name": name, "has_dir": snapD is not None, "n": n}
+            self.last = {"G": G, "args_at": args_at, "m": None, "name": name, "has_dir": snapD is not None, "n": n,
+                         "params": self.model_params(bound["self"])}
             if kind == "euler2d":
                 return [G[0], A.Sym2D([G[1], G[2]]), G[3]]
             return list(G)
@@ -143,6 +171,31 @@ class FluxContract:
         for k, g in enumerate(self.last["G"]):
             cur().add_fact(z3.Implies(same, T.treal(g.at(f)) == phys[k]))
         return same
+
+    def instance_mirror(self, rec1, rec2, f2, f1):
+        """mirror clause (C02) + pointwise: if the states of call 2 at face f2 are the mirror image (swapped, velocities
+        negated; convection speed negated) of the states of call 1 at face f1, then G2_k(f2) = sigma_k G1_k(f1)"""
+        kind = self.kind
+        a1, a2 = rec1["args_at"](f1), rec2["args_at"](f2)
+        m = len(a1) // 2
+
+        def Mst(W):
+            W = list(W)
+            if kind == "burgers":
+                return [-W[0]]
+            if kind == "convection":
+                return W
+            W[1] = -W[1]
+            return W
+        want = Mst(a1[m:2 * m]) + Mst(a1[:m])
+        rel = [x == y for x, y in zip(a2, want)]
+        p1, p2 = rec1["params"], rec2["params"]
+        rel += [(y == -x) if kind == "convection" else (y == x) for x, y in zip(p1, p2)]
+        rel = z3.And(*rel) if rel else z3.BoolVal(True)
+        par = C.parity(kind)
+        for k, (g1, g2) in enumerate(zip(rec1["G"], rec2["G"])):
+            cur().add_fact(z3.Implies(rel, T.treal(g2.at(f2)) == par[k] * T.treal(g1.at(f1))))
+        return rel
 
     def instance_wall(self, f, interior="L"):
         """no mass / energy flux between a state and its 'sym' image (interior state on side `interior`)"""
